@@ -74,6 +74,22 @@ C16_PAIRS = [("m_lsn", "m_usn", "mirror"), ("m_ldn", "m_udn", "mirror"), ("cdn_o
              ("r_base", "r_negpsi", "negpsi"), ("r_base", "r_revcur", "same"), ("r_base", "r_revbt", "revbt"), ("r_base", "r_twopi", "same"),
              ("rn_base", "rn_negpsi", "negpsi")]
 
+# ---- envelope configurations (C12): in and around the supported envelope; refusal is an accepted outcome, a hang or a bad file is not
+_add(_c("env_ny1", "LSN", [2, 2], [1, 2, 1], 1, "lsn", dict(orthogonal=True), fpol="quad"))
+_add(_c("env_g4", "LSN", [2, 2], [3, 4, 3], 4, "lsn", dict(orthogonal=True), fpol="quad"))
+_add(_c("env_nfine5", "LSN", [2, 2], [3, 4, 3], 1, "lsn", dict(orthogonal=True, finecontour_Nfine=5), fpol="quad"))
+_add(_c("env_sol_wide", "LSN", [2, 2], [3, 4, 3], 1, "lsn", dict(orthogonal=True, psinorm_sol=1.6), fpol="quad"))
+_add(_c("env_len_small", "LSN", [2, 2], [3, 4, 3], 1, "lsn", dict(orthogonal=True, target_all_poloidal_spacing_length=1e-3, xpoint_poloidal_spacing_length=1e-3), fpol="quad"))
+_add(_c("env_len_big", "LSN", [2, 2], [3, 4, 3], 1, "lsn", dict(orthogonal=True, target_all_poloidal_spacing_length=10.0, xpoint_poloidal_spacing_length=10.0), fpol="quad"))
+_add(_c("env_core_deep", "LSN", [2, 2], [3, 4, 3], 1, "lsn", dict(orthogonal=True, psinorm_core=0.2), fpol="quad"))
+_add(_c("env_cdn_second_inside", "CDN", [2, 2], [3, 3, 3, 3, 3, 3], 1, "udn2", dict(orthogonal=True, psinorm_sol=1.02, psinorm_sol_inner=1.02), fpol="quad"))
+_add(_c("env_nonorth_n50", "LSN", [2, 2], [3, 4, 3], 1, "lsn", dict(orthogonal=False, finecontour_Nfine=50), fpol="quad"))
+_add(_c("env_nx1", "LSN", [1, 1], [3, 4, 3], 1, "lsn", dict(orthogonal=True), fpol="quad"))
+_add(_c("env_sepmult", "LSN", [3, 3], [3, 4, 3], 1, "lsn", dict(orthogonal=True, psi_spacing_separatrix_multiplier=3.0), fpol="quad"))
+_add(_c("env_lim", "LIM", [3], [8], 1, None, dict(orthogonal=True)))
+ENVELOPE_QUICK = ["env_ny1", "env_g4", "env_nfine5", "env_len_small", "env_nx1"]
+ENVELOPE = ENVELOPE_QUICK + ["env_sol_wide", "env_len_big", "env_core_deep", "env_cdn_second_inside", "env_nonorth_n50", "env_sepmult", "env_lim"]
+
 CORE_CAMPAIGN = ["lsn_orth", "usn_orth", "lsn_orth_rev", "lsn_nonorth", "lsn_nonorth_rev", "cdn_orth", "ldn_orth",
                  "udn_nonorth", "core_orth", "lim_orth", "lsn_orth_x2", "lsn_orth_g2", "lsn_orth_extrap", "udn_orth"]
 
